@@ -227,9 +227,9 @@ def oracle_solve_period(case, kind, span, labels, label, rep):
     return ra, a
 
 
-def run(ctx, rep):
+def _work(ctx, rep):
     rng = ctx.sub_rng('solve')
-    N = (5000 if ctx.tier == 'quick' else 120000) * ctx.scale
+    N = (5000 if ctx.tier == 'quick' else 800000) * ctx.scale // ctx.parts
     lines, expect = [], []
     for i in range(N):
         case, kind, span, labels, start, end, fault_at = gen_case(rng)
@@ -257,6 +257,11 @@ def run(ctx, rep):
         for (info, b), a in zip(expect, outs):
             if a != b:
                 rep.disagree('solve / solve_period: model != impl', info, a, b)
+
+
+def run(ctx, rep):
+    import framework
+    framework.parallel(_work, ctx, rep, parts=(1 if ctx.tier == 'quick' else ctx.workers))
 
 
 def replay(ctx, rep, info):
